@@ -91,7 +91,7 @@ def run(ctx):
     run.rule("C07.R7", "validator.main: one handler for ConfigurationError "
              "around the load; returns int(flag)")
     run.rule("C07.R8", "tuple-unpacking of split() results has a guard on the "
-             "number of fields", floor=2)
+             "number of fields", floor=1)
 
     ef = ctx.excflow
     _install_specialisations(ctx, ef)
@@ -166,10 +166,16 @@ def run(ctx):
              "slots agree on the kind of value per child (borrowed from "
              "C02.R1)", floor=4)
     BM = "ZConfig.matcher.BaseMatcher"
+    def family(p, base):
+        # C07 only cares that a refusal is *some* configuration error
+        if base[0] == "raise" and (base[1] in m.classes and m.is_subclass(
+                base[1], CFGERR)):
+            return ("raise", "<configuration error>")
+        return base
     for live, ref in (("addValue", "addValue"), ("addSection", "addSection"),
                       ("finish", "finish"), ("constuct", "construct")):
         crosscheck(ctx, "C07.R9", BM + "." + live, "ref_matcher.py", ref, BM,
-                   "per-child slot handling of " + live)
+                   "per-child slot handling of " + live, outcome_norm=family)
 
     _r2_positions(ctx)
     _r3_cycles(ctx)
